@@ -17,7 +17,7 @@ import (
 
 func init() {
 	props["C01"] = func(x *Ctx) {
-		x.rule = "objects generated from the repo's own types with lengths biased to 0,1,255,256,65532..65535; each encoder drained under 7 buffer-size scripts and compared with the Lean reference layout; decoders run on encoder output, 7 mutation kinds and random bytes and compared with the mirrored model. non-trivial = object with at least one variable-length part non-empty (encoders) / input that reaches the field loop or a bounds decision (decoders); distinct = distinct canonical bytes"
+		x.rule = "objects generated from the repo's own types with lengths biased to 0,1,255,256,65532..65535; each encoder drained under 7 buffer-size scripts and compared with the Lean reference layout; decoders run on encoder output, 7 mutation kinds and random bytes and compared with the mirrored model. non-trivial = object with at least one variable-length part non-empty (encoders) / input that reaches the field loop or a bounds decision (decoders); distinct = distinct canonical bytes. send path (wave d): histories of 4..23 transactions to 2..4 registered clients and one unknown client through the real sendTransaction (called directly, and through the real processOutbox), the connections failing scripted Write calls (error after 0 / a few / many bytes), every history with at least one failed write followed by a later send; non-trivial = every history; distinct = distinct history. downloads (wave d): 2..4 files (0..40000 bytes, some with a stored resource fork) in 4 folders plus 0..3 aliases made by the real Make-Alias handler (aliases of aliases included), each entry downloaded whole or resumed through the real download handler + handleFileTransfer; folder downloads with aliases of outside files / of a folder inside the folder; non-trivial = alias download / folder with an item sent; distinct = (name, chain length, offset, content)"
 		x.assume = []string{
 			"reference layouts in lean/MobiusModel/Wire.lean transcribed from docs/HLProtocol (trusted transcription)",
 			"Go slices handed to decoders have cap == len (as the server's copies do)",
